@@ -72,6 +72,7 @@ type deferRec struct {
 }
 
 type Exec struct {
+	rename map[string]string // contract identifier -> name now declared at the same position (see declNames)
 	callerParams map[string]Value // at_call evaluation: the caller's parameters (see `caller(x)`)
 	P        *Prog
 	fn       *ssa.Function // function under verification
